@@ -558,7 +558,7 @@ pub fn zst_oracle(h: &ZHist, probe: &mut Probe) -> Result<(), Fail> {
     Ok(())
 }
 
-fn zst_strategy() -> impl Strategy<Value = ZHist> {
+pub fn zst_strategy() -> impl Strategy<Value = ZHist> {
     let op = prop_oneof![
         4 => Just(ZOp::Push),
         2 => Just(ZOp::Pop),
